@@ -168,8 +168,11 @@ class Harness:
                     st["rows"].append(r[0] if r else "")
                     st["raw_rows"].append(r)
         if st["buf_exists"]:
-            with builtins.open(self.buf, newline="") as f:
-                st["buf"] = [r[0] for r in csv.reader(f, delimiter="\t") if r]
+            try:
+                with builtins.open(self.buf, newline="") as f:
+                    st["buf"] = [r[0] for r in csv.reader(f, delimiter="\t") if r]
+            except FileNotFoundError:      # removed between the existence test and the read (by nobody the model knows of)
+                st["buf_exists"] = False
         st["l1"], st["l2"] = self.l1.owner, self.l2.owner
         return st
 
